@@ -219,6 +219,24 @@ def run(m: Model, r: Report, tier: str) -> None:
     r.check(okl, "R10", f"{psf.qualname}#offset-table",
             f"{detail_l}; each iteration must record the position before reading a line, stop exactly at end-of-file and drop the position recorded for the "
             "non-existent line after the last newline", loc=psf.loc)
+    # the offset table describes the whole file: it is built from position 0, whatever has been read before
+    # (`old = tell()` ... `seek(old)` only saves and restores the reader's position)
+    if len(ploops) == 1:
+        pre = [st for st in psf.node.body if st.lineno < ploops[0].lineno]
+        rewinds = [st for st in pre if isinstance(st, ast.Expr) and isinstance(st.value, ast.Call) and ast.unparse(st.value.func) == "self.file_mmap.seek"
+                   and st.value.args and m.try_fold(psf.module, st.value.args[0]) == 0]
+        r.check(bool(rewinds), "R10", f"{psf.qualname}#from-start",
+                "the offset table is built starting at the current read position, not at the beginning of the file: after k records have been read, len() is short by k and "
+                "negative offsets / reverse reading address the wrong records", loc=psf.loc)
+    rinit = m.require_function(f"{LOG}.PenlogReader.__init__")
+    maps = [n for n in ast.walk(rinit.node) if isinstance(n, ast.Call) and ast.unparse(n.func) == "mmap.mmap"]
+    if len(maps) != 1:
+        raise AnalysisError(f"{rinit.qualname}: mmap call not found")
+    guarded_map = any(isinstance(t_, ast.Try) and any(maps[0] is x for b_ in t_.body for x in ast.walk(b_)) and
+                      any(h.type is None or any(k in ast.unparse(h.type) for k in ("ValueError", "Exception")) for h in t_.handlers) for t_ in ast.walk(rinit.node)) or \
+        any(isinstance(i_, ast.If) and ("st_size" in ast.unparse(i_.test) or "getsize" in ast.unparse(i_.test)) for i_ in ast.walk(rinit.node))
+    r.check(guarded_map, "R10", f"{rinit.qualname}#empty-log",
+            "mmap.mmap(fd, 0) raises ValueError for an empty file and nothing handles it: a log without any record (0 is in the property's range of lengths) cannot be opened at all", loc=rinit.loc)
     lo = m.require_function(f"{LOG}.PenlogReader._lookup_offset")
     first_if = next((n for n in lo.node.body if isinstance(n, ast.If)), None)
     ipar = lo.params()[1] if len(lo.params()) > 1 else "index"
